@@ -561,7 +561,7 @@ func prunedSig(f *TFrame) string {
 				fmt.Fprintf(&sb, "l%d,", o.Tag)
 			case "frame":
 				if o.Frame.Err == "" {
-					fmt.Fprintf(&sb, "f%x", o.Frame.To.Bytes()[16:])
+					fmt.Fprintf(&sb, "f%s%x", o.Frame.Typ, o.Frame.To.Bytes()[16:])
 					if isPrecompile(o.Frame.To) {
 						fmt.Fprintf(&sb, "%x", o.Frame.Input)
 					}
